@@ -361,6 +361,14 @@ def library_membership(ctx, idx, rule, init):
         for x in ast.walk(node_c):
             if isinstance(x, ast.Call) and (idx.qualname(callee.module, x.func, callee) or "") in ("re.compile", "re.match", "re.search", "re.fullmatch") and x.args:
                 pat = K.src(K.expand(callee, x.args[0]))
+                if ".join(" in pat and "escape" in pat:
+                    # every name escaped, alternatives closed by `\.` or the end of the text, matched from the start: module == lib or
+                    # module starts with lib + "."
+                    tmpl = [c_ for c_ in ast.walk(K.expand(callee, x.args[0])) if isinstance(c_, ast.Constant) and isinstance(c_.value, str) and "{" in c_.value]
+                    mcalls = [m_ for m_ in ast.walk(node_c) if isinstance(m_, ast.Call) and isinstance(m_.func, ast.Attribute) and m_.func.attr in ("match", "search", "fullmatch", "findall")]
+                    if tmpl and tmpl[0].value.replace(" ", "") in ("(?:{})(?:\\.|\\Z)", "(?:{0})(?:\\.|\\Z)") and mcalls and all(m_.func.attr == "match" for m_ in mcalls):
+                        ctx.hold(rule, con, K.rel(callee), x.lineno, "membership by a regular expression built from the escaped library names, anchored at the start and closed by `.` or the end of the name")
+                        return comp
                 if ".join(" in pat and "escape" not in pat:
                     ctx.violate(rule, con, K.rel(callee), x.lineno, "`%s` builds a regular expression from the requested library names as they are: every `.` of a dotted name matches any character, so requesting `pkg.ext` also selects the commands of a module `pkg_ext` / `pkgXext` that something else loaded" % K.src(x)[:70])
                     return comp
@@ -389,6 +397,17 @@ def library_membership(ctx, idx, rule, init):
                 and isinstance(cond.func.value, ast.Attribute) and cond.func.value.attr in ("module", "__module__"):
             # module.startswith(tuple(libraries)): a bare prefix test against every requested name at once
             pre = ("bare-prefix", cond)
+        elif isinstance(cond, ast.Call) and isinstance(cond.func, ast.Attribute) and cond.func.attr == "startswith" and len(cond.args) == 1 and isinstance(cond.args[0], ast.Name) \
+                and isinstance(cond.func.value, ast.BinOp) and isinstance(cond.func.value.op, ast.Add) and isinstance(cond.func.value.right, ast.Constant) and cond.func.value.right.value == "." \
+                and isinstance(cond.func.value.left, ast.Attribute) and cond.func.value.left.attr in ("module", "__module__"):
+            # (module + ".").startswith(prefixes) with prefixes = tuple(lib + "." for lib in libraries): both sides end at a package
+            # boundary, so this is `module == lib or module.startswith(lib + ".")` for some requested lib
+            defs_p = [n_.value for n_ in own_nodes(init.node) if isinstance(n_, ast.Assign) and any(isinstance(t_, ast.Name) and t_.id == cond.args[0].id for t_ in n_.targets)]
+            if len(defs_p) == 1 and isinstance(defs_p[0], ast.Call) and K.src(defs_p[0].func) == "tuple" and len(defs_p[0].args) == 1 and isinstance(defs_p[0].args[0], (ast.GeneratorExp, ast.ListComp)) \
+                    and not defs_p[0].args[0].generators[0].ifs and isinstance(defs_p[0].args[0].elt, ast.BinOp) and isinstance(defs_p[0].args[0].elt.op, ast.Add) \
+                    and isinstance(defs_p[0].args[0].elt.right, ast.Constant) and defs_p[0].args[0].elt.right.value == "." and isinstance(defs_p[0].args[0].elt.left, ast.Name) \
+                    and K.src(defs_p[0].args[0].elt.left) == K.src(defs_p[0].args[0].generators[0].target):
+                pre = ("exact", cond)
         elif isinstance(cond, ast.Compare) and isinstance(cond.ops[0], ast.In) and isinstance(cond.comparators[0], ast.Name):
             # info.module in libraries : exact
             l = cond.left
@@ -558,6 +577,10 @@ def run(ctx, idx):
     # ---- b
     cfg = K.cfg_of(idx, init)
     stores = cfg.find("store", lambda n: n.meta.get("attr") == "command_library" and self_attr(n.ast, sn))
+    if stores and prog.attrs.get("command_library") is not None:
+        v0 = stores[0].meta.get("value")
+        if isinstance(v0, ast.Call) and ((K.src(v0.func) in ("dict", "copy.copy", "copy.deepcopy") and v0.args and K.src(v0.args[0]).endswith(".command_library")) or (isinstance(v0.func, ast.Attribute) and v0.func.attr == "copy" and K.src(v0.func.value).endswith(".command_library"))):
+            raise AnalysisError("C19.b: the program's lookup starts as a per-instance copy of a class-level `command_library` and is then filled; whether the class-level table is ever written to (by a subclass, or through an instance that skipped the copy) is not decided")
     if not stores:
         shared = prog.attrs.get("command_library")
         muts = [n for n in own_nodes(init.node) if (isinstance(n, ast.Call) and isinstance(n.func, ast.Attribute) and n.func.attr in ("update", "setdefault", "__setitem__") and K.src(n.func.value) == "%s.command_library" % sn)
